@@ -34,8 +34,12 @@ pub open spec fn feq(a: f32, b: f32) -> bool { a.eq_spec(&b) }
 
 // R2: unary minus
 pub uninterp spec fn f32_neg_spec(a: f32) -> f32;
+// (`-x` is applied to `f32` and to `&f32` operands in the repository; one wrapper for both)
+pub trait AsF32 { spec fn val(&self) -> f32; }
+impl AsF32 for f32 { open spec fn val(&self) -> f32 { *self } }
+impl AsF32 for &f32 { open spec fn val(&self) -> f32 { **self } }
 #[verifier::external_body]
-pub fn fneg(a: f32) -> (r: f32) ensures r == f32_neg_spec(a) { -a }
+pub fn fneg<T: AsF32 + core::ops::Neg<Output = f32>>(a: T) -> (r: f32) ensures r == f32_neg_spec(a.val()) { -a }
 
 // libm: uninterpreted spec functions (Verus proves *which expression* is computed, not its value)
 pub uninterp spec fn f32_sqrt_spec(a: f32) -> f32;
